@@ -817,7 +817,8 @@ def check(run, mods, wd, rnd) -> dict:
             try:
                 q = T.parse_prog(out)
             except (Unsupported, SyntaxError) as e:
-                problems.append({"rule": rid, "source": src, "output": out, "problem": f"output outside the fragment: {e}"})
+                problems.append({"rule": rid, "source": src, "output": out, "problem": f"output outside the fragment: {e}",
+                                 "program": p})
                 continue
             cases.append((rid, p, q, src, out, seeded))
             hist[f"{rid}:{'fired' if q != p else 'silent'}"] += 1
@@ -932,9 +933,21 @@ def check(run, mods, wd, rnd) -> dict:
                            "explanation": "executing the rewritten program gives a different call log / final value / "
                                           "exception status and no listed finding covers the shape"}, True)
     for c in problems[:3]:
-        run.violation({"tranche": "comp", "kind": "rule-output-outside-fragment", "site": "fixes." + RULES[c["rule"]], **c,
-                       "kernel": "RulesCompModel", "explanation": "the real rule raised or produced text outside the fragment"},
-                      False)
+        # failing-input search: the oracle does not need the output to be in the fragment
+        prog = c.pop("program", None)
+        d = None
+        if prog is not None and c.get("output"):
+            try:
+                d = oracle_differs(prog, c["source"], c["output"])
+            except SyntaxError:
+                d = {"after": "does not parse"}
+        if d:
+            run.violation({"tranche": "comp", "kind": "property-oracle", "site": "fixes." + RULES[c["rule"]], **c, "diff": d,
+                           "explanation": "the output of the rule is outside the fragment and behaves differently"}, True)
+        else:
+            run.violation({"tranche": "comp", "kind": "rule-output-outside-fragment", "site": "fixes." + RULES[c["rule"]], **c,
+                           "kernel": "RulesCompModel", "explanation": "the real rule raised or produced text outside the fragment"},
+                          False)
     if not failures:
         for d in disagreements[:5]:
             # failing-input search: the oracle on exactly this program, over all valuations
@@ -969,7 +982,7 @@ def check(run, mods, wd, rnd) -> dict:
                  "non-trivial = the real rule changed the program; distinct by (rule, source). Semantics: CPython vs "
                  "exec_block on inputs and outputs under 2 valuations. Oracle: before / after under 5 valuations."),
         "samples": samples,
-        "modelled_rules": MODELLED,
+        "modelled_rules": MODELLED, "rules_with_model": MODELLED,
         "histogram": dict(hist), "rule_cases": len(cases), "semantic_cases": len(sem), "semantic_gaps": sem_gap,
         "semantic_outside_domain": n_outside, "semantic_mismatches": len(sem_bad),
         "correspondence_disagreements": len(disagreements), "oracle_cases": n_oracle, "oracle_failures": len(failures),
